@@ -33,6 +33,21 @@ deriving DecidableEq, Repr, Inhabited
 
 instance : Coe String OpCode := ⟨fun s => ⟨s, ""⟩⟩
 
+/-- which tree is modelled: `fixed = true` is the tree with fixes/DC20a (an offered operation is identified by
+name AND properties / attributes: `phs.same_operation`), `fixed = false` the tree before it (name / Python class
+only — finding DC20a). Every function below that compares operations takes the variant as an instance. -/
+class Variant where
+  fixed : Bool
+
+/-- default: the tree as committed (fixes/DC20a applied). Theorems about both trees take the variant as a
+variable; `Props/C20.lean` declares the unfixed tree locally for the `_fails` witness. -/
+instance Variant.fixedTree : Variant := ⟨true⟩
+
+/-- `same_operation` (fixed) / `operation.name ==`, `type(a) is type(b)` (unfixed) -/
+def sameOp [Variant] (a b : OpCode) : Bool := if Variant.fixed then a == b else a.cls == b.cls
+
+variable [Variant]
+
 inductive Src where
   | arg (i : Nat)
   | node (j : Nat)
@@ -236,11 +251,11 @@ compared: an operation of a class that is present with other attributes is silen
 The real code rebuilds an appended operation as `type(operation)(*block.args)`, which raises `TypeError` for
 an operation that needs attributes; no generated history reaches that (every attributed class of the
 generators is the only class of its type signature), so it is not modelled. -/
-def hasClass (cur : List OpCode) (c : String) : Bool := cur.any fun x => x.cls == c
+def hasClass (cur : List OpCode) (c : OpCode) : Bool := cur.any fun x => sameOp x c
 
 def insertOps (cur : List OpCode) : List OpCode → List OpCode
   | [] => cur
-  | o :: r => insertOps (if hasClass cur o.cls then cur else cur ++ [o]) r
+  | o :: r => insertOps (if hasClass cur o then cur else cur ++ [o]) r
 
 def mapExcept {α β} (f : α → Except Err β) : List α → Except Err (List β)
   | [] => .ok []
@@ -340,7 +355,7 @@ deriving DecidableEq, Repr, Inhabited
 /-- first offered operation of the same CLASS as `t` (`type(target_operation) is type(operation)`) -/
 def idxOf (t : OpCode) : List OpCode → Nat → Option Nat
   | [], _ => none
-  | o :: r, p => if o.cls = t.cls then some p else idxOf t r (p + 1)
+  | o :: r, p => if sameOp o t then some p else idxOf t r (p + 1)
 
 /-- the local decision for switch number `s` -/
 def localChoice (A K : PE) (s : Nat) : SwUse → Except Err Pre
@@ -538,7 +553,7 @@ def srcMuxOk (A : PE) : Src → Bool
   | _ => true
 
 /-- no two DIFFERENT operations of one class (what `insert_operations` maintains; decoding picks by class) -/
-def classFun (l : List OpCode) : Bool := l.all fun o => l.all fun o' => o.cls != o'.cls || o == o'
+def classFun (l : List OpCode) : Bool := l.all fun o => l.all fun o' => !sameOp o o' || o == o'
 
 def nodeOk (A : PE) (n : Node) : Bool := !n.ops.isEmpty && n.operands.all (srcMuxOk A) && classFun n.ops
 
